@@ -164,6 +164,20 @@ Example C11_stale_owner_rejected_by_wf_own_b :
                  mkT 1%Z None [] [] [] (Some 0) false None [] None] [0]) = false.
 Proof. vm_compute. reflexivity. Qed.
 
+(* ---- the tie to the source text: the owner of a subtree.  Task._attach(wbs) and Task._detach(), translated on every
+   run from their current source text (gen/SrcGraph.v: recursion over the children with the heap threaded through), write
+   the owner on exactly the tasks of the subtree - the model's [set_own_all] over [subtree] - in every well-formed state;
+   _detach stops at a task without owner, and under the invariant nothing below such a task has one. *)
+From PJ Require Import gen.SrcGraph Graph.SrcGraphEquiv3.
+
+Theorem C11_src_attach : forall s t w, WF s ->
+  src_attach (S (length (hp s))) (hp s) t (Some w) = Ok (set_own_all (hp s) (subtree (hp s) t) (Some w), tt).
+Proof. exact src_attach_eq. Qed.
+
+Theorem C11_src_detach : forall s t, WF s ->
+  src_detach (S (length (hp s))) (hp s) t = Ok (set_own_all (hp s) (subtree (hp s) t) None, tt).
+Proof. exact src_detach_eq. Qed.
+
 Print Assumptions C11_truth.
 Print Assumptions C11_truth_list.
 Print Assumptions C11_reach.
@@ -183,3 +197,5 @@ Print Assumptions C11_demo_owner.
 Print Assumptions C11_demo_hypotheses.
 Print Assumptions C11_demo_bulk.
 Print Assumptions C11_stale_owner_rejected_by_wf_own_b.
+Print Assumptions C11_src_attach.
+Print Assumptions C11_src_detach.
